@@ -86,6 +86,29 @@ def _read_assigned_outside_try(fi, tr: ast.Try) -> bool:
 LAYOUT_ATTRS = {"size", "alignment", "fields", "lookup", "__fields__", "offset", "dynamic", "__align__"}
 
 
+
+def _only_selects_reader(p: ast.If) -> bool:
+    """The 'if <compiled flag>' statement only chooses between compile(X) and X: 'X = compile(X)' without else, or
+    'T = compile(X) else T = X' / 'return compile(X) else return X' (the shape left by a small helper)."""
+    def val(st: ast.stmt):
+        if isinstance(st, ast.Assign) and len(st.targets) == 1:
+            return norm(st.targets[0]), st.value
+        if isinstance(st, ast.Return) and st.value is not None:
+            return "<return>", st.value
+        return None
+
+    if len(p.body) != 1 or len(p.orelse) > 1:
+        return False
+    b = val(p.body[0])
+    if b is None or not (isinstance(b[1], ast.Call) and call_name(b[1]) == "compile" and len(b[1].args) == 1 and not b[1].keywords):
+        return False
+    arg = norm(b[1].args[0])
+    if not p.orelse:
+        return b[0] == arg
+    e = val(p.orelse[0])
+    return e is not None and e[0] == b[0] and norm(e[1]) == arg
+
+
 def neutral_rule(repo: Repo, rep: Report, rid: str) -> None:
     rep.rule(rid, "compilation is layout-neutral: everything reachable from Compiler.* stores only _read/__compiled__ on the structure (and "
                   "__source__ on the fresh function); the parser's 'compiled' flag only guards st = compiler.compile(st)")
@@ -126,8 +149,7 @@ def neutral_rule(repo: Repo, rep: Report, rid: str) -> None:
                     while p is not None and not isinstance(p, ast.If):
                         p = pm.get(p)
                     key = f"{fi.key}:self.compiled"
-                    ok = isinstance(p, ast.If) and len(p.body) == 1 and isinstance(p.body[0], ast.Assign) and isinstance(p.body[0].value, ast.Call) \
-                        and call_name(p.body[0].value) == "compile" and norm(p.body[0].targets[0]) == norm(p.body[0].value.args[0]) and not p.orelse
+                    ok = isinstance(p, ast.If) and _only_selects_reader(p)
                     rep.check(ok, rid, key, "only guards st = compiler.compile(st)",
                               f"the 'compiled' flag influences more than the choice of reader: '{short(p, 80)}'", fi.loc(x))
     rep.floor(rid, "uses of the compiled flag", nflag, 3)
